@@ -21,6 +21,8 @@ def body(ctx):
         vals = [(v,) for v in vf.int_lattice(8 * nb)]
         for (ra,) in vf.rows_from(vals, nb, (0, 3)):
             plan.append("ew pos %s 0 %s - - -" % (t, ra))
+            for op in ("isnan", "isinf", "isfinite"):
+                plan.append("cmp %s %s 0 %s - - -" % (op, t, ra))
     for t, bits in (("f32", 32), ("f64", 64)):
         nb = bits // 8
         lat = vf.float_lattice(bits, rng, ctx.q(600, 20000))
@@ -35,6 +37,8 @@ def body(ctx):
         pairs += [(a, a) for a in mid[:200]] + [(a, a ^ 1) for a in mid[:200]]
         for ra, rb in vf.rows_from(pairs, nb, (0, 3)):
             plan.append("ew fdim %s 0 %s %s - -" % (t, ra, rb))
+            plan.append("ew sadd %s 0 %s %s - -" % (t, ra, rb))
+            plan.append("ew ssub %s 0 %s %s - -" % (t, ra, rb))
     if ctx.replay:
         plan = lanes.replay_plan(ctx.replay)
     ctx.log("plan: %d lines" % len(plan))
